@@ -130,6 +130,16 @@ TVanish ==
           /\ UNCHANGED <<cfg, pend, pc, rbq, seen, cur>>
           /\ AdvNote(Names({<<"harness-vanish-did-more-than-remove-one-file",
                               src' # [src EXCEPT ![E.f] = Absent] \/ dst' # dst>>}))
+TConsume ==    \* a file taken out of the destination by somebody downstream (its directories pruned when empty)
+  /\ E.ev = "consume"
+  /\ IF E.f \notin Files \/ pc # Idle THEN Rej({"harness-bad-consume"}) /\ UNCHANGED <<vars, seen, cur>>
+     ELSE /\ Follow
+          /\ hist' = [hist EXCEPT !.consumed = @ \cup {E.f}]
+          /\ seen' = seen \ {E.f}          \* an event of the file is no repetition any more: the destination lacks it again
+          /\ last' = Act("Consume", E.f)
+          /\ UNCHANGED <<cfg, pend, pc, rbq, cur>>
+          /\ AdvNote(Names({<<"harness-consume-did-more-than-remove-one-destination-file",
+                              src' # src \/ dst' # [dst EXCEPT !.final[E.f] = Absent]>>}))
 TCrash ==
   /\ E.ev = "crash"
   /\ Follow
@@ -164,11 +174,11 @@ TQuiesce ==
        <<"C17-Fidelity-reader-on-destination-differs-from-source-truth",
          E.has_rd /\ SeqOf(E.rd) # SeqOf(Hdr.rd_truth)>>}))
 
-Known_evs == {"op", "deliver", "handled", "begin", "end", "vanish", "crash", "start", "quiesce"}
+Known_evs == {"op", "deliver", "handled", "begin", "end", "vanish", "consume", "crash", "start", "quiesce"}
 TOther == /\ E.ev \notin Known_evs /\ Rej({"unknown-event"}) /\ UNCHANGED <<vars, seen, cur>>
 
 TNext ==
-  \/ HasEvent /\ (TOp \/ TDeliver \/ THandled \/ TBegin \/ TEnd \/ TVanish \/ TCrash \/ TStart \/ TQuiesce \/ TOther)
+  \/ HasEvent /\ (TOp \/ TDeliver \/ THandled \/ TBegin \/ TEnd \/ TVanish \/ TConsume \/ TCrash \/ TStart \/ TQuiesce \/ TOther)
   \/ Finish /\ UNCHANGED <<vars, seen, cur>>
 TSpec == TInit /\ [][TNext]_allvars
 
